@@ -8,7 +8,10 @@ export PYTHONPATH=/repo/src PYTHONHASHSEED=0 PYTHONWARNINGS=ignore
 # translator-generated files (regenerated again by every check)
 /venv/bin/python harness/translate_history.py > /dev/null
 harness/gen_coqproject.sh
-( cd coq && timeout 3000 make -j16 ) > build/logs/setup_make.log 2>&1 || { tail -30 build/logs/setup_make.log; exit 1; }
+# -k: a proof file that no longer compiles must not stop the rest from building; the check of every
+# property whose closure contains it reports the broken obligation itself. Only the extraction
+# targets (needed by the drivers below) are required here.
+( cd coq && timeout 3000 make -j16 -k ) > build/logs/setup_make.log 2>&1 || { echo "setup: some .vo files did not build (reported by the checks that depend on them):"; grep -E "^File|Error" build/logs/setup_make.log | head -10; }
 /venv/bin/python - <<'PY'
 import sys; sys.path.insert(0,'/verif/harness')
 import common as C, glob, os
